@@ -18,7 +18,22 @@ FUNCTIONS = ['uxarray.grid.grid.Grid.face_areas',
     'uxarray.grid.neighbors.KDTree.coordinates.setter@value=bogus',
     'uxarray.grid.grid.Grid.compute_face_areas',
     'uxarray.grid.grid.Grid.to_geodataframe',
-    'uxarray.grid.connectivity._populate_edge_node_connectivity']
+    'uxarray.grid.connectivity._populate_edge_node_connectivity',
+    'uxarray.grid.connectivity._populate_face_edge_connectivity',
+    'uxarray.grid.connectivity._populate_n_nodes_per_face',
+    'uxarray.grid.connectivity._populate_edge_face_connectivity',
+    'uxarray.grid.connectivity._populate_node_face_connectivity',
+    'uxarray.grid.connectivity._populate_face_face_connectivity',
+    'uxarray.grid.coordinates._populate_node_latlon',
+    'uxarray.grid.coordinates._populate_node_xyz',
+    'uxarray.grid.grid.Grid.node_lon',
+    'uxarray.grid.grid.Grid.node_lat',
+    'uxarray.grid.coordinates._populate_face_centroids',
+    'uxarray.grid.coordinates._populate_edge_centroids',
+    'uxarray.grid.grid.Grid.face_lon',
+    'uxarray.grid.grid.Grid.face_lat',
+    'uxarray.grid.grid.Grid.edge_lon',
+    'uxarray.grid.grid.Grid.edge_lat']
 STANDINS = ["histories"]
 ASSUMPTIONS = []
 EXPLANATION = ""
